@@ -660,6 +660,8 @@ rf64_write_header (SF_PRIVATE *psf, int calc_length)
 
 		if (psf->dataend)
 			psf->datalength -= psf->filelength - psf->dataend ;
+		else if (psf->bytewidth > 0 && psf->sf.seekable == SF_TRUE)
+			psf->datalength = psf->sf.frames * psf->bytewidth * psf->sf.channels ;
 
 		if (psf->bytewidth > 0)
 			psf->sf.frames = psf->datalength / (psf->bytewidth * psf->sf.channels) ;
